@@ -18,6 +18,7 @@ META = {
     "encoded": ["gpio.Peripheral.__init__", "gpio.Peripheral.elaborate", "gpio.Peripheral.Mode/Input/Output/SetClr",
                 "gpio.Peripheral.Output._FieldAction.elaborate", "csr.reg.Builder", "csr.reg.Bridge",
                 "csr.bus.Multiplexer.elaborate", "csr.reg.Register.elaborate", "csr.action.R/W/RW"],
+    "also": '17 pins (thorough 24, 33); two SetClr writes back to back; enumerated Output/SetClr/read sequences without idle cycles; pins checked in every cycle across Mode/Output/SetClr writes',
     "bounds": "pin count 1,2,3,4,5,8,9 (thorough + 12,16,17), data width 8/16 (thorough 8/16/32), minimal address "
               "width and +1, input_stages 0-3; windows: Mode write + Output write (+2), Output write + SetClr write + "
               "Output read-back, Input read with pin inputs free in every cycle; register transactions back to back "
